@@ -140,8 +140,13 @@ def run(cfg, chooser):
         if n not in tid: tid[n] = len(tid) + 1
         return tid[n]
 
+    rc = cfg.get("rc", True)
+
     class Ctl(ParallelBackendBase):
-        supports_retrieve_callback = True
+        # rc=False: legacy protocol with futures semantics - the result of a batch is available to the caller (blocking get()
+        # through ParallelBackendBase.retrieve_result) as soon as the batch is done, its completion callback (which only
+        # dispatches) is delivered later by a callback thread
+        supports_retrieve_callback = rc
         supports_return_generator = True
         supports_timeout = True
         uses_threads = True; supports_sharedmem = True
@@ -157,6 +162,7 @@ def run(cfg, chooser):
 
         def submit(b, func, callback=None):
             f = Fut()
+            if not rc: f.wait = b._wait
             idx = [it[1][0] for it in func.items]; tag = func.items[0][1][1]
             lo, hi = min(idx), max(idx) + 1
             ev(ev="Submit", c=tag, lo=lo, hi=hi)
@@ -164,6 +170,16 @@ def run(cfg, chooser):
             b.pending.append((func, callback, f, tag, lo, hi))
             s.yield_point("submit")
             return f
+
+        def _wait(b, f, timeout=None):
+            while not f.done:
+                if not b.env_options():
+                    if timeout is not None:
+                        for _ in range(int(round(timeout / 0.01)) + 1):
+                            clock[0] += 0.01; ev(ev="Poll")
+                        raise TimeoutError()
+                    if not b.busy and not b.queue: raise Hang()
+                s.yield_point("sleep")
 
         def _wait_callbacks(b):
             if joins:
